@@ -17,7 +17,9 @@ import fitlib as F
 warnings.simplefilter("ignore")
 IMPORTS = "From V Require Import Model.Gate Model.GateRun."
 FAMS = ["Daily", "Billing", "Hourly"]
-TZ = {"US/Pacific": 1, "US/Eastern": 2}
+# tzC: another zone whose UTC offsets coincide with the baseline's over the whole reporting period;
+# tzD: a zone that merely shares the baseline's offset when the reporting period starts (fixed UTC-8)
+TZ = {"US/Pacific": 1, "US/Eastern": 2, "America/Vancouver": 3, "Pacific/Pitcairn": 4}
 POOR_NAMES = {"eemeter.model_fit_metrics.cvrmse", "eemeter.model_fit_metrics"}
 NAME_IDS = {}
 
@@ -60,6 +62,9 @@ def build_data(seed):
     add("Daily", "rep_noobs", F.daily_reporting(r[["temperature"]]), ("Reporting", "Daily"), "US/Pacific")
     rb = F.daily_frame(rng, tz="US/Eastern", start="2023-01-01", ndays=120)
     add("Daily", "rep_tzB", F.daily_reporting(rb), ("Reporting", "Daily"), "US/Eastern")
+    for zn, nm in (("America/Vancouver", "rep_tzC"), ("Pacific/Pitcairn", "rep_tzD")):
+        rz = F.daily_frame(rng, tz=zn, start="2023-01-01", ndays=120)
+        add("Daily", nm, F.daily_reporting(rz), ("Reporting", "Daily"), zn)
     add("Daily", "raw", r.copy(), ("Raw", None), "US/Pacific")
     # ---- billing
     m, t = F.billing_series(rng, tz="US/Pacific")
@@ -73,6 +78,9 @@ def build_data(seed):
     add("Billing", "rep", F.billing_reporting(mr, tr), ("Reporting", "Billing"), "US/Pacific")
     mrb, trb = F.billing_series(rng, tz="US/Eastern", start="2023-01-10", nperiods=5)
     add("Billing", "rep_tzB", F.billing_reporting(mrb, trb), ("Reporting", "Billing"), "US/Eastern")
+    for zn, nm in (("America/Vancouver", "rep_tzC"), ("Pacific/Pitcairn", "rep_tzD")):
+        mz, tz_ = F.billing_series(rng, tz=zn, start="2023-01-10", nperiods=5)
+        add("Billing", nm, F.billing_reporting(mz, tz_), ("Reporting", "Billing"), zn)
     add("Billing", "raw", r.copy(), ("Raw", None), "US/Pacific")
     # ---- hourly
     h = F.hourly_frame(rng, tz="US/Pacific")
@@ -88,6 +96,9 @@ def build_data(seed):
     add("Hourly", "rep_ghi", F.hourly_reporting(hrg), ("Reporting", "Hourly"), "US/Pacific", ghi=True)
     hrb = F.hourly_frame(rng, tz="US/Eastern", start="2023-02-01", ndays=21)
     add("Hourly", "rep_tzB", F.hourly_reporting(hrb), ("Reporting", "Hourly"), "US/Eastern")
+    for zn, nm in (("America/Vancouver", "rep_tzC"), ("Pacific/Pitcairn", "rep_tzD")):
+        hz = F.hourly_frame(rng, tz=zn, start="2023-02-01", ndays=21)
+        add("Hourly", nm, F.hourly_reporting(hz), ("Reporting", "Hourly"), zn)
     add("Hourly", "raw", hr.copy(), ("Raw", None), "US/Pacific")
     # cross-family objects
     for fam in FAMS:
@@ -188,11 +199,13 @@ def gen_history(rng, fam, k):
     # systematic prefixes so that every quick run covers the central cells
     if k == 0:
         ops = [("predict", "rep", False), ("fit", "short", False), ("fit", "clean", False), ("predict", "rep", False),
-               ("reload",), ("predict", "rep", False), ("predict", "rep_tzB", True), ("predict", "raw", True)]
+               ("reload",), ("predict", "rep", False), ("predict", "rep_tzB", True), ("predict", "raw", True),
+               ("predict", "rep_tzC", True), ("predict", "rep_tzD", False)]
         return profile if profile != "ghi" else "default", ops
     if k == 1:
         ops = [("fit", "short", True), ("predict", "rep", False), ("predict", "rep", True), ("reload",),
-               ("predict", "rep", False), ("predict", "rep", True), ("fit", "clean", False), ("predict", "rep", False)]
+               ("predict", "rep", False), ("predict", "rep", True), ("fit", "clean", False), ("predict", "rep", False),
+               ("predict", "rep_tzD", True), ("predict", "rep_tzC", False)]
         return "default", ops
     if k == 2:
         ops = [("fit", "clean", False), ("predict", "rep", False), ("predict", "rep", True), ("reload",),
